@@ -12,3 +12,15 @@ Definition nkept (samples : list sample) : list nat :=
 (* a candidate of the reduced Db seen in the original Db: same distance and sector, rank renamed *)
 Definition cren (K : list nat) (c : cand) : cand := {| c_idx := ren K (c_idx c); c_d2 := c_d2 c; c_sect := c_sect c |}.
 Definition stren (K : list nat) (ca : cand * bool) : cand * bool := (cren K (fst ca), snd ca).
+
+(* ---- samples whose coordinates / external drifts may be undefined (the C06 model has total coordinates and no external drift) ----
+   The corrected ANeigh::_discardUndefined returns 1 (discard) first of all when a coordinate or an external drift of the
+   sample is undefined; it is called right after the isActive test in NeighUnique::_unique and NeighMoving::_moving,
+   before any coordinate is read.  Such a sample is rendered in the C06 model as an inactive one. *)
+Definition odef (o : option Q) : bool := match o with Some _ => true | None => false end.
+Record nrow := { n_coords : list (option Q); n_fext : list (option Q); n_s : sample }.
+Definition nembed (x : nrow) : sample :=
+  {| s_active := s_active (n_s x) && forallb odef (n_coords x) && forallb odef (n_fext x);
+     s_coords := map (fun o => match o with Some v => v | None => 0%Q end) (n_coords x);
+     s_vars := s_vars (n_s x); s_code := s_code (n_s x) |}.
+Definition nusable (x : nrow) : bool := nkeep (nembed x).
